@@ -120,3 +120,7 @@ mod tests {
         .unwrap_err();
     }
 }
+
+#[cfg(futures_buffered_verif)]
+#[path = "/verif/hooks/try_join_all.rs"]
+mod verif_hooks;
